@@ -755,6 +755,101 @@ struct QueueSizeProg : Program
     }
 };
 
+// ------------------------------------------------------------------ S: many operations on the same objects, one thread
+// The schedule explorer runs short programs; state that only grows with use (a nesting counter that is not taken
+// back on some path, an index inside the queue) needs many operations on the SAME lock and the SAME queue.  No
+// scheduler here: one thread, the real pthread primitives, one fixed history.
+static void soak_single_thread()
+{
+    int which = mc::choose(2);
+    const int steps = mc::thorough() ? 1000000 : 150000;
+    mc::nontrivial();
+    if (which == 0)
+    {
+        mc::describe("system lock: %d nest/un-nest cycles with save/restore on one thread", steps);
+        mc::crash_context("C20.soak.syslock.crash");
+        for (int i = 0; i < steps; i++)
+        {
+            int depth = 1 + i % 4;
+            for (int d = 1; d <= depth; d++)
+            {
+                system_lock();
+                if (syslock_counter() != d)
+                {
+                    mc::violation("C20.soak.syslock.depth", "cycle %d: counter %d after %d nested acquisitions", i, syslock_counter(), d);
+                    return;
+                }
+            }
+            if (i % 5 == 0)
+            {
+                struct syslock_save_pair sv = system_lock_save();
+                if (syslock_counter() > 0)
+                {
+                    mc::violation("C20.soak.syslock.save", "cycle %d: counter %d after system_lock_save", i, syslock_counter());
+                    return;
+                }
+                system_lock_restore(sv);
+                if (syslock_counter() != depth)
+                {
+                    mc::violation("C20.soak.syslock.restore", "cycle %d: counter %d after restore of depth %d", i, syslock_counter(), depth);
+                    return;
+                }
+            }
+            {
+                igris::syslock_guard g;
+                if (syslock_counter() < depth)
+                {
+                    mc::violation("C20.soak.syslock.guard", "cycle %d: counter %d inside a guard at depth %d", i, syslock_counter(), depth);
+                    return;
+                }
+            }
+            for (int d = depth; d >= 1; d--)
+                system_unlock();
+            if (syslock_counter() != 0)
+            {
+                mc::violation("C20.soak.syslock.depth", "cycle %d: counter %d after undoing every acquisition", i, syslock_counter());
+                return;
+            }
+        }
+        mc::outcome("syslock soak");
+    }
+    else
+    {
+        mc::describe("safe_queue: %d push/pop operations on one queue, fill level sweeping 0..9", steps);
+        mc::crash_context("C20.soak.safe_queue.crash");
+        igris::safe_queue<int> q;
+        std::vector<int> ref;
+        size_t head = 0;
+        int next = 0;
+        for (int i = 0; i < steps; i++)
+        {
+            size_t fill = ref.size() - head, target = (size_t)((i / 7) % 10);
+            if (fill < target || fill == 0)
+            {
+                q.push(next);
+                ref.push_back(next++);
+            }
+            else
+            {
+                int v = q.pop();
+                if (v != ref[head])
+                {
+                    mc::violation("C20.soak.safe_queue.order", "operation %d: popped %d, want %d", i, v, ref[head]);
+                    return;
+                }
+                head++;
+            }
+            if (q.size() != ref.size() - head)
+            {
+                mc::violation("C20.soak.safe_queue.size", "operation %d: size() %zu, want %zu", i, q.size(), ref.size() - head);
+                return;
+            }
+        }
+        mc::outcome("safe_queue soak");
+    }
+    mc::more_cases(steps, steps);
+}
+
 // ------------------------------------------------------------------ registration
 static void add_one(const std::string &pname, std::function<Program *()> make, int b, int spurious, bool thorough_only);
 static void add_prog(const std::string &pname, std::function<Program *()> make, int qbound, int tbound)
@@ -813,6 +908,7 @@ static void add_one(const std::string &pname, std::function<Program *()> make, i
 
 MC_INIT
 {
+    mc::add_check("soak_single_thread", soak_single_thread);
     for (int v = 0; v < 4; v++)
         add_prog(LockProg(v).name, [v] { return new LockProg(v); }, 2, 3);
     for (int v = 0; v < 7; v++)
